@@ -34,7 +34,7 @@ CHECKS["C14"] = dict(engine="nodemodel", category="exploration", design_ref="DES
   note="Trusted: the reference model (two-sided where the documentation is). Operations are applied only where the docstrings allow them, on mappings with distinct scalar keys. A seeded sample of histories, not an exhaustive enumeration.",
   technique="model-based checking of seeded operation histories against an executable reference model (sequential refinement); Hypothesis as seeded plan generator/shrinker")
 CHECKS["C11"] = dict(engine="world", category="exploration", design_ref="DESIGN.md §4",
-  text="Seeded worlds: 1-3 class-model specs (same-named classes across specs), shared load/dump/JSON functions, K in 1..4 client threads with operation lists (loads from several source kinds, dumps to several sinks, function creation, plain-PyYAML probes, gc), and faults attached to operations (callback exception, cancellation at the n-th yield point, read/write error). Each world runs in a child forked from a pristine worker under a baton scheduler: real threads, pre-empted only at sys.settrace line/opcode events in yatiml, PyYAML and generated classes and at seam calls, the schedule tape deciding every switch (PCT-like change points, geometric run lengths, fixed quanta, and schedules derived from a profiling run that park a thread right after it wrote call-outliving state). Workload extras: functions over subsets of one class set and sibling functions, twin creation of the very same function by two threads, sequential histories repeated in a tight loop (40-60 times, thorough up to 16 000 calls), failed calls' exceptions kept alive by the caller, stride single-pre-emption sweeps. Churn scenarios: functions created, used, dropped and collected over same-named class sets, and the class source itself executed anew each round (new class objects and typing aliases, the old ones die; 160-240 rounds, thorough up to 1500). Class models include untyped parameters, container defaults through _yatiml_defaults with a sweeten that removes defaulted attributes, Any-typed data with non-string and tuple keys. Re-entrant use: at a callback invocation of one operation in eight the user's code performs another load/dump operation itself (recorded and compared as an operation of its own; the outer operation's reference never contains it). Pairs of load functions over identical supporting classes with different result types. Oracles: every finished operation equals the same operation in a fresh pristine child in which only its own function exists (value with sharing structure, callback trace, exception class and message tokens, sink content); PyYAML's and yatiml's base registries equal their import-time fingerprint at quiescence and at every context switch; user classes (attributes, and the annotations/defaults/code of their methods) and dumped objects are unchanged; every class of the yaml package keeps its attributes and methods; process-wide settings that change what later calls return (recursion limit, int-digits limit, warning filters, cwd, umask, locale, open) are restored, and the recursion and int-digits limits are also compared at every context switch; a broad behaviour probe of plain PyYAML (documents, values, dump options, errors, the other loaders) equals its import-time result; no deadlock.",
+  text="Seeded worlds: 1-3 class-model specs (same-named classes across specs), shared load/dump/JSON functions, K in 1..4 client threads with operation lists (loads from several source kinds, dumps to several sinks, function creation, plain-PyYAML probes, gc), and faults attached to operations (callback exception, cancellation at the n-th yield point, read/write error). Each world runs in a child forked from a pristine worker under a baton scheduler: real threads, pre-empted only at sys.settrace line/opcode events in yatiml, PyYAML and generated classes and at seam calls, the schedule tape deciding every switch (PCT-like change points, geometric run lengths, fixed quanta, and schedules derived from a profiling run that park a thread right after it wrote call-outliving state). Workload extras: functions over subsets of one class set and sibling functions, twin creation of the very same function by two threads, sequential histories repeated in a tight loop (40-60 times, thorough up to 16 000 calls), failed calls' exceptions kept alive by the caller, stride single-pre-emption sweeps. Churn scenarios: functions created, used, dropped and collected over same-named class sets, and the class source itself executed anew each round (new class objects and typing aliases, the old ones die; 160-240 rounds, thorough up to 1500). Class models include untyped parameters, container defaults through _yatiml_defaults with a sweeten that removes defaulted attributes, Any-typed data with non-string and tuple keys. Re-entrant use: at a callback invocation of one operation in eight the user's code performs another load/dump operation itself (recorded and compared as an operation of its own; the outer operation's reference never contains it). Pairs of load functions over identical supporting classes with different result types. Loaded values are changed in place by the caller once recorded, so results handed out twice show. Oracles: every finished operation equals the same operation in a fresh pristine child in which only its own function exists (value with sharing structure, callback trace, exception class and message tokens, sink content); PyYAML's and yatiml's base registries equal their import-time fingerprint at quiescence and at every context switch; user classes (attributes, and the annotations/defaults/code of their methods) and dumped objects are unchanged; every class of the yaml package keeps its attributes and methods; process-wide settings that change what later calls return (recursion limit, int-digits limit, warning filters, cwd, umask, locale, open) are restored, and the recursion and int-digits limits are also compared at every context switch; a broad behaviour probe of plain PyYAML (documents, values, dump options, errors, the other loaders) equals its import-time result; no deadlock.",
   note="Trusted: pre-emption at source-line (knob: bytecode) granularity, C code atomic as under the GIL; canonical outcome comparison (value and callback trace, or exception class and message-token multiset); the pristine fork is a fresh process. A seeded sample of worlds and schedules, not an enumeration.",
   technique="deterministic simulation: seeded baton scheduler over real threads (sys.settrace yield points) with fault injection, history compared with an isolated fresh-process reference; Hypothesis as seeded plan generator/shrinker")
 CHECKS["C06"] = dict(engine="dumphist", category="exploration", design_ref="DESIGN.md §4a",
